@@ -112,13 +112,21 @@ func (e *Enc) encodeTop() {
 
 // lemmaFormula renders "forall params. requires ==> ensures" of a lemma.
 func (e *Enc) lemmaFormula(lm *Lemma) (string, error) {
+	plain, _, err := e.lemmaFormula2(lm)
+	return plain, err
+}
+
+// lemmaFormula2 renders the lemma twice: without trigger (the solver chooses) and with an
+// explicit trigger (used by the fuel-indexed script variant, where solver-chosen triggers
+// such as s[k] are re-fed by every unfolding).
+func (e *Enc) lemmaFormula2(lm *Lemma) (string, string, error) {
 	env := e.newSpecEnv(nil, nil)
 	env.pkg = e.P.tpkgs[lm.Pkg]
 	var bs []string
 	for _, p := range lm.Params {
 		t, err := e.evalType(p.Type, env.pkg)
 		if err != nil {
-			return "", err
+			return "", "", err
 		}
 		srt := e.specSort(t)
 		vn := "l!" + sanitize(p.Name)
@@ -129,18 +137,81 @@ func (e *Enc) lemmaFormula(lm *Lemma) (string, error) {
 	for _, cl := range lm.Requires {
 		f, err := env.formula(cl.Expr)
 		if err != nil {
-			return "", err
+			return "", "", err
 		}
 		pre = append(pre, f)
 	}
 	for _, cl := range lm.Ensures {
 		f, err := env.formula(cl.Expr)
 		if err != nil {
-			return "", err
+			return "", "", err
 		}
 		post = append(post, f)
 	}
-	return fmt.Sprintf("(forall (%s) %s)", strings.Join(bs, " "), sImp(sAnd(pre...), sAnd(post...))), nil
+	body := sImp(sAnd(pre...), sAnd(post...))
+	// explicit trigger: the applications of recursive spec functions to plain parameters that
+	// occur in the lemma (ensures first), when together they mention every parameter. Leaving
+	// the choice to the solver lets it pick terms such as s[k], which the unfolding of the
+	// definitions keeps producing (matching loops).
+	isParam := map[string]bool{}
+	for _, p := range lm.Params {
+		isParam[p.Name] = true
+	}
+	var pats []string
+	covered := map[string]bool{}
+	seen := map[string]bool{}
+	var walk func(x *CExpr, bound map[string]bool)
+	walk = func(x *CExpr, bound map[string]bool) {
+		if x == nil {
+			return
+		}
+		if x.Op == "forall" || x.Op == "exists" {
+			nb := map[string]bool{}
+			for k := range bound {
+				nb[k] = true
+			}
+			for _, bd := range x.Binders {
+				nb[bd.Name] = true
+			}
+			for _, a := range x.Args {
+				walk(a, nb)
+			}
+			return
+		}
+		if sf := e.P.reg.Specs[x.Name]; x.Op == "call" && sf != nil && sf.Body != nil && isRecursiveSpec(sf) {
+			simple := true
+			for _, a := range x.Args {
+				if a.Op != "id" || !isParam[a.Name] || bound[a.Name] {
+					simple = false
+				}
+			}
+			if simple {
+				if t, err := env.tr(x); err == nil && !seen[t.T] {
+					seen[t.T] = true
+					pats = append(pats, t.T)
+					for _, a := range x.Args {
+						covered[a.Name] = true
+					}
+				}
+			}
+		}
+		for _, a := range x.Args {
+			walk(a, bound)
+		}
+	}
+	for _, cl := range lm.Ensures {
+		walk(cl.Expr, map[string]bool{})
+	}
+	if len(covered) < len(lm.Params) {
+		for _, cl := range lm.Requires {
+			walk(cl.Expr, map[string]bool{})
+		}
+	}
+	plain := fmt.Sprintf("(forall (%s) %s)", strings.Join(bs, " "), body)
+	if len(pats) > 0 && len(covered) == len(lm.Params) {
+		return plain, fmt.Sprintf("(forall (%s) (! %s :pattern (%s)))", strings.Join(bs, " "), body, strings.Join(pats, " ")), nil
+	}
+	return plain, plain, nil
 }
 
 func lemmaCalls(lm *Lemma) []string {
@@ -159,29 +230,41 @@ func (e *Enc) axiomsText() (string, []string) {
 		changed = false
 		for _, ln := range e.P.reg.LemmaOrder {
 			lm := e.P.reg.Lemmas[ln]
+			if os.Getenv("VERIF_DEBUG") == "7" {
+				fmt.Fprintf(os.Stderr, "DEBUG lemma %s cur=%s sigs=%d\n", ln, e.curLemma, len(e.specSigs))
+			}
 			if ln == e.curLemma {
 				break // while proving a lemma only earlier lemmas are available (no circular proofs)
 			}
-			if done["lemma:"+ln] {
-				continue
+			if done["lemma:"+ln] || (lm.LemmaOnly && e.curLemma == "") || e.opt("nolemma:"+ln) {
+				continue // "option nolemma:<name>": the function's proof does not want this lemma
 			}
+			// a lemma is offered when a spec function it talks about is in use here (a lemma may
+			// bring in further spec functions, e.g. a witness function); lemmas that only slow a
+			// proof down are kept out with "lemmaonly" or "option nolemma:<name>"
 			rel := false
 			for _, n := range lemmaCalls(lm) {
 				if _, ok := e.specSigs[n]; ok {
 					rel = true
 				}
 			}
-			if !rel || e.P.tpkgs[lm.Pkg] == nil && lm.Pkg != "" {
+			if os.Getenv("VERIF_DEBUG") == "7" {
+				fmt.Fprintf(os.Stderr, "DEBUG   rel=%v pkg=%q loaded=%v calls=%v\n", rel, lm.Pkg, e.P.tpkgs[lm.Pkg] != nil, lemmaCalls(lm))
+			}
+			if !rel || e.P.tpkgs[lm.Pkg] == nil && lm.Pkg != "" && !(e.curLemma != "" && e.P.reg.Lemmas[e.curLemma].Pkg == lm.Pkg) {
 				continue
 			}
 			done["lemma:"+ln] = true
 			changed = true
-			f, err := e.lemmaFormula(lm)
+			f, fpat, err := e.lemmaFormula2(lm)
 			if err != nil {
 				e.errors = append(e.errors, fmt.Sprintf("%s: lemma %s: %v", lm.Src, ln, err))
 				continue
 			}
 			fmt.Fprintf(&b, "(assert %s) ; lemma %s\n", f, ln)
+			if fpat != f {
+				fmt.Fprintf(&b, ";;recax-lemma (assert %s) ; lemma %s\n", fpat, ln)
+			}
 			e.lemmasUsed[ln] = true
 		}
 		for _, ax := range e.P.reg.Axioms {
@@ -643,4 +726,14 @@ func entryClosedAxioms(w *World, c *Comp) []string {
 		return []string{fmt.Sprintf("(assert (forall ((r Int) (i Int)) (! (=> (<= (root r) alloc@0) %s) :pattern ((select (select %s r) i)))))", f("(select (select "+n+" r) i)"), n)}
 	}
 	return nil
+}
+
+// isRecursiveSpec: the spec function calls itself (directly).
+func isRecursiveSpec(sf *SpecFn) bool {
+	for _, n := range calledNames(sf.Body) {
+		if n == sf.Name {
+			return true
+		}
+	}
+	return false
 }
